@@ -92,6 +92,33 @@ PROPS["C16"] = {
           what="heap-backed Queue<Tracked>", bounds="unwind 9; CAP 2, 4 steps"),
         H("c16::c16_queue_get", covers=1, timeout=900, mem_gb=4,
           what="FixedSizeQueue<u8,3>::get(i) for every fill level / ring phase", bounds="unwind 8; 5 steps"),
+        H("c16::c16_fixed_slotmap_history", covers=3, timeout=1500, mem_gb=8, tiers=("quick",),
+          what="FixedSizeSlotMap<Tracked,2>: insert/insert_at/remove/get/contains/next_free_key/iteration vs model; drops",
+          bounds="unwind 9; CAP 2, 4 steps, keys 0..=CAP"),
+        H("c16::c16_owning_slotmap_history", covers=3, timeout=1500, mem_gb=8, tiers=("quick",),
+          what="heap-backed SlotMap<Tracked>(2), same obligations", bounds="unwind 9; CAP 2, 4 steps"),
+        H("c16::c16_fixed_slotmap_history_deep", covers=3, timeout=5400, mem_gb=14, tiers=("thorough",),
+          what="FixedSizeSlotMap<Tracked,3>, 5 steps", bounds="unwind 9; CAP 3, 5 steps"),
+        H("c16::c16_flatmap_history", covers=2, timeout=1500, mem_gb=8, tiers=("quick",),
+          what="FixedSizeFlatMap<u8,Tracked,2>: insert (duplicate / full errors)/remove/get/get_ref/contains/list_keys vs model",
+          bounds="unwind 9; CAP 2, 4 steps, 3 keys"),
+        H("c16::c16_flatmap_history_deep", covers=2, timeout=5400, mem_gb=14, tiers=("thorough",),
+          what="FixedSizeFlatMap, 5 steps", bounds="unwind 9; CAP 2, 5 steps"),
+        H("c16::c16_string_history_grow", covers=2, timeout=1500, mem_gb=8, tiers=("quick",),
+          what="StaticString<3>: push/insert/insert_bytes/pop over the full byte range vs model; NUL termination",
+          bounds="unwind 9; CAP 3, 4 steps"),
+        H("c16::c16_string_history_shrink", covers=1, timeout=1500, mem_gb=8, tiers=("quick",),
+          what="StaticString<3>: push/remove/remove_range/find/rfind/truncate/strip_prefix/strip_suffix vs model",
+          bounds="unwind 9; CAP 3, 4 steps"),
+        H("c16::c16_string_history_grow_deep", covers=2, timeout=5400, mem_gb=14, tiers=("thorough",),
+          what="StaticString<3> growing ops, 6 steps", bounds="unwind 9; 6 steps"),
+        H("c16::c16_string_history_shrink_deep", covers=1, timeout=5400, mem_gb=14, tiers=("thorough",),
+          what="StaticString<3> shrinking ops, 6 steps", bounds="unwind 9; 6 steps"),
+        H("c16::c16_string_find_model", covers=2, timeout=1500, mem_gb=6,
+          what="StaticString::find/rfind with needles of 1..=3 bytes vs a naive search (two letter alphabet: every "
+               "overlap pattern)", bounds="unwind 9; haystack <= 4 bytes, needle <= 3 bytes"),
+        H("c16::c16_string_retain_clear", covers=1, timeout=900, mem_gb=4,
+          what="StaticString<3>::retain/clear on every string of length <= 3", bounds="unwind 9"),
     ],
 }
 
@@ -133,6 +160,322 @@ PROPS["C19"] = {
     "harnesses": _c19,
 }
 
+
+_c03 = []
+for (n, what, b) in [
+    ("c03_seq_index_queue", "FixedSizeIndexQueue<2>", "unwind 9; 6 symbolic ops"),
+    ("c03_seq_overflow_queue", "FixedSizeSafelyOverflowingIndexQueue<2>", "unwind 9; 6 symbolic ops"),
+    ("c03_seq_spsc_queue", "spsc::Queue<u64,2>", "unwind 9; 6 symbolic ops"),
+    ("c03_seq_index_queue_owning", "heap-backed IndexQueue(2)", "unwind 9; 5 symbolic ops"),
+    ("c03_seq_overflow_queue_owning", "heap-backed SafelyOverflowingIndexQueue(2)", "unwind 9; 5 symbolic ops"),
+    ("c03_seq_index_queue_cap1", "FixedSizeIndexQueue<1>", "unwind 9; 5 symbolic ops"),
+    ("c03_seq_overflow_queue_cap1", "FixedSizeSafelyOverflowingIndexQueue<1>", "unwind 9; 5 symbolic ops"),
+]:
+    _c03.append(H("c03::" + n, covers=2, timeout=900, mem_gb=4,
+                  what="sequential refinement of %s against a FIFO model (push/pop/evict, len, is_empty, is_full), "
+                       "symbolic values, final drain" % what, bounds=b))
+for (n, what) in [("c03_seq_index_queue_cap3", "FixedSizeIndexQueue<3>"),
+                  ("c03_seq_overflow_queue_cap3", "FixedSizeSafelyOverflowingIndexQueue<3>"),
+                  ("c03_seq_spsc_queue_cap3", "spsc::Queue<u64,3>")]:
+    _c03.append(H("c03::" + n, covers=2, timeout=3600, mem_gb=8, tiers=("thorough",),
+                  what="sequential refinement of %s, 8 symbolic ops" % what, bounds="unwind 11; 8 symbolic ops"))
+_c03.append(H("c03::c03_handover", covers=0, timeout=600, mem_gb=3,
+              what="producer/consumer hand-over: one handle per role at a time, re-acquirable after drop",
+              bounds="unwind 6"))
+for (q, qn) in [("overflow", "FixedSizeSafelyOverflowingIndexQueue<2>"), ("index", "FixedSizeIndexQueue<2>"),
+                ("spsc", "spsc::Queue<u64,2>")]:
+    for (role, rn) in [("producer_outer", "producer preempted at each of its shared-memory operations, consumer runs "
+                                          "complete pops in the gaps"),
+                       ("consumer_outer", "consumer preempted at each of its shared-memory operations, producer runs "
+                                          "complete pushes in the gaps")]:
+        nc = 2
+        _c03.append(H("c03::sched::c03_s_%s_%s" % (q, role), crate="hs", covers=nc, timeout=1500, mem_gb=8, tiers=("quick",),
+                      what="%s: %s; conservation, FIFO order, capacity, legitimate failures" % (qn, rn),
+                      bounds="unwind 10; 2 outer operations, <= 1-2 inner operations, every preemption point"))
+        _c03.append(H("c03::sched::c03_s_%s_%s_deep" % (q, role), crate="hs", covers=nc, timeout=5400, mem_gb=14,
+                      tiers=("thorough",),
+                      what="%s: %s (3 outer operations, 2-3 inner)" % (qn, rn),
+                      bounds="unwind 10; 3 outer operations, <= 2-3 inner operations"))
+for role in ("producer_outer", "consumer_outer"):
+    _c03.append(H("c03::sched::c03_s_overflow_cap1_%s" % role, crate="hs", covers=2, timeout=5400, mem_gb=14,
+                  tiers=("thorough",), what="overflow queue with capacity 1, 3 outer / 2 inner operations",
+                  bounds="unwind 10"))
+
+PROPS["C03"] = {
+    "bounds": "capacity 1..=3; sequential histories of 5-8 symbolic operations with symbolic u64 values; schedules: one "
+              "thread preempted before any of its shared-memory operations (atomics and slot accesses), the other "
+              "thread runs up to 1-3 complete operations in each gap (nested preemption), both role assignments, "
+              "2-3 operations per thread",
+    "outside": "C11 weak-memory behaviours (SC only); schedules where both threads are in the middle of an operation "
+               "at the same time more than one level deep; more than 3 operations per thread; cursor values >= 2^63; "
+               "the connection-level claim (release never fails) is decided under C13/C08 harnesses when built",
+    "assumptions": ["values pushed are distinct and increasing (1, 2, 3, ...) in the schedule harnesses so that "
+                    "order and conservation are observable"],
+    "harnesses": _c03,
+    "claimed": False,
+}
+
+
+_c14 = []
+for (n, ty, k) in [("index_queue", "FixedSizeIndexQueue<2>", 3), ("overflow_queue", "FixedSizeSafelyOverflowingIndexQueue<2>", 3),
+                   ("unique_index_set", "FixedSizeUniqueIndexSet<3>", 4), ("robust_index_set", "StaticRobustUniqueIndexSet<2>", 3),
+                   ("bit_set", "FixedSizeBitSet<10>", 3), ("counting_bit_set", "FixedSizeCountingBitSet<3>", 3),
+                   ("container", "FixedSizeContainer<u32,2> (add/remove)", 3), ("static_vec", "StaticVec<u8,3>", 3),
+                   ("relocatable_vec", "RelocatableVec<u8> + data in one block", 3), ("queue", "FixedSizeQueue<u8,2>", 3),
+                   ("string", "StaticString<3>", 3), ("slot_map", "FixedSizeSlotMap<u8,2>", 3),
+                   ("flat_map", "FixedSizeFlatMap<u8,u8,2>", 3)]:
+    _c14.append(H("c14::c14_" + n, covers=1, timeout=1800, mem_gb=6,
+                  what="%s: %d symbolic operations, byte-copy to a fresh block at a symbolic point of the history "
+                       "(old block scribbled and freed), lock-step comparison with a twin that stayed" % (ty, k),
+                  bounds="unwind 8-12; %d operations, relocation point symbolic" % k))
+_c14.append(H("c14::c14_relocatable_pointer", covers=0, timeout=600, mem_gb=3,
+              what="RelocatablePointer::as_ptr follows its block by exactly the placement delta",
+              bounds="distance < 16"))
+PROPS["C14"] = {
+    "bounds": "3-4 symbolic operations per structure with the relocation point anywhere in the history; capacities 2-3 "
+              "(bit set 10, crossing the 8-bit element boundary)",
+    "outside": "ContainerState snapshots (process local by design); types holding OwningPointer (not meant for shared "
+               "memory); histories longer than 4 operations; the shm allocators keep an absolute base address by design "
+               "and are checked relationally under C15/cal",
+    "assumptions": ["a byte-wise copy to a fresh heap block models mapping the segment at a different address"],
+    "harnesses": _c14,
+    "extra": [],
+    "claimed": False,
+}
+
+PROPS["C09"] = {
+    "bounds": "capacities 1..=4, sequential histories of 4-6 symbolic acquire/release(lock-if-last) operations; robust "
+              "set with 2 owners incl. recover; schedules: outer thread preempted before any shared-memory operation, "
+              "inner thread runs up to 3-4 complete acquire/release operations in the gaps (incl. the ABA shape)",
+    "outside": "C11 weak-memory behaviours; wrap of the 16-bit ABA tag (needs 65536 operations inside one stall); 3 "
+               "threads; pool allocator under a symbolic schedule",
+    "assumptions": [],
+    "harnesses": [
+        H("c09::c09_uis_history_cap2", covers=3, timeout=900, mem_gb=4,
+          what="FixedSizeUniqueIndexSet<2>: symbolic acquire/release history vs set model; lock-if-last; leak freedom",
+          bounds="unwind 8; 5 steps"),
+        H("c09::c09_uis_history_cap1", covers=3, timeout=900, mem_gb=4, what="capacity 1", bounds="unwind 8; 4 steps"),
+        H("c09::c09_uis_history_cap3", covers=3, timeout=3600, mem_gb=8, tiers=("thorough",), what="capacity 3",
+          bounds="unwind 8; 6 steps"),
+        H("c09::c09_uis_history_cap4", covers=3, timeout=3600, mem_gb=8, tiers=("thorough",), what="capacity 4",
+          bounds="unwind 8; 6 steps"),
+        H("c09::c09_uis_raii", covers=0, timeout=600, mem_gb=3, what="UniqueIndex RAII gives the index back on drop",
+          bounds="unwind 8"),
+        H("c09::c09_robust_history_cap2", covers=4, timeout=1500, mem_gb=6,
+          what="StaticRobustUniqueIndexSet<2>: acquire/release(owner, mode)/recover(dead owner) history vs owner model",
+          bounds="unwind 8; 4 steps, 2 owners"),
+        H("c09::c09_robust_history_cap3", covers=4, timeout=5400, mem_gb=12, tiers=("thorough",),
+          what="robust set, capacity 3", bounds="unwind 8; 5 steps"),
+        H("c09::sched::c09_s_uis_race_cap2", crate="hs", covers=2, timeout=1800, mem_gb=10, tiers=("quick",),
+          what="two threads racing acquire/release on the real free list; exclusivity, bounds, legitimate failures, "
+               "leak freedom; ABA shape witnessed", bounds="unwind 8; capacity 2, 2 outer / 3 inner operations"),
+        H("c09::sched::c09_s_uis_race_cap2_lock", crate="hs", covers=2, timeout=1800, mem_gb=10, tiers=("quick",),
+          what="same race with every release in LockIfLastIndex mode: Locked reported iff the set is locked afterwards, "
+               "no acquire succeeds after a reported lock, the last release locks",
+          bounds="unwind 8; capacity 2, 2 outer / 3 inner operations"),
+        H("c09::sched::c09_s_uis_race_cap2_lock_deep", crate="hs", covers=2, timeout=7200, mem_gb=16, tiers=("thorough",),
+          what="lock-if-last race, 3 outer / 4 inner operations", bounds="unwind 8"),
+        H("c09::sched::c09_s_robust_recover_race", crate="hs", covers=2, timeout=2400, mem_gb=12, tiers=("quick",),
+          what="robust set: recovery of a dead owner preempted at every atomic operation while a second recoverer and "
+               "a live owner (acquire/release) run in the gaps: exactly the dead owner's indices, each once; the live "
+               "owner keeps its indices", bounds="unwind 8; capacity 2, 2 inner operations"),
+        H("c09::sched::c09_s_robust_recover_race_deep", crate="hs", covers=2, timeout=7200, mem_gb=16, tiers=("thorough",),
+          what="robust recovery race with 3 inner operations", bounds="unwind 8"),
+        H("c09::sched::c09_s_uis_race_cap1", crate="hs", covers=1, timeout=1800, mem_gb=8, tiers=("quick",),
+          what="same, capacity 1", bounds="unwind 8; 2 outer / 3 inner operations"),
+        H("c09::sched::c09_s_uis_race_cap3_deep", crate="hs", covers=2, timeout=7200, mem_gb=16, tiers=("thorough",),
+          what="same, capacity 3, 3 outer / 4 inner operations", bounds="unwind 8"),
+    ],
+    "claimed": False,
+}
+
+PROPS["C12"] = {
+    "bounds": "payload [u32;2] = (i, !i); writer <= 3 stores (copy and loan-style two-step), reader <= 3 loads; the "
+              "reader's copy is split into two halves with a scheduling point in between; raw layouts: size <= 12, "
+              "alignment <= 8, block misalignment < 8",
+    "outside": "C11 weak-memory behaviours; both threads in the middle of an operation at the same time beyond one "
+               "nesting level; value sizes > 12 bytes; write_cell near u64::MAX; the port layer (writer.rs/reader.rs)",
+    "assumptions": ["core::ptr::copy_nonoverlapping is replaced by a byte loop (Kani stub), split in the middle for the "
+                    "schedule harnesses"],
+    "harnesses": [
+        H("c12::c12_seq_store_load", covers=0, timeout=900, mem_gb=4,
+          what="sequential: store (both flavours) / load round trip, unpublished write invisible, single producer",
+          bounds="unwind 10; 3 stores"),
+        H("c12::c12_seq_raw_layout", covers=1, timeout=1500, mem_gb=6,
+          what="raw management API with symbolic size/alignment/misalignment: cells aligned, disjoint, inside the "
+               "computed size; raw store/load round trip", bounds="unwind 14; size<=12, align<=8, misalign<8"),
+        H("c12::sched::c12_s_reader_outer", crate="hs", covers=2, timeout=1800, mem_gb=10, tiers=("quick",),
+          what="reader preempted at every shared operation and in the middle of its copy; writer runs complete stores: "
+               "no torn value, monotone, not older than completed stores", bounds="unwind 10; 2 loads, <=2 stores"),
+        H("c12::sched::c12_s_writer_outer", crate="hs", covers=1, timeout=1800, mem_gb=10, tiers=("quick",),
+          what="writer preempted at every shared operation; reader runs complete loads inside the stores",
+          bounds="unwind 10; 2 stores, <=2 loads"),
+        H("c12::sched::c12_s_reader_outer_deep", crate="hs", covers=2, timeout=7200, mem_gb=16, tiers=("thorough",),
+          what="2 loads, <=3 stores", bounds="unwind 10"),
+        H("c12::sched::c12_s_writer_outer_deep", crate="hs", covers=1, timeout=7200, mem_gb=16, tiers=("thorough",),
+          what="3 stores, <=3 loads", bounds="unwind 10"),
+        H("c12::sched::c12_s_single_writer_race", crate="hs", covers=2, timeout=900, mem_gb=4,
+          what="two threads racing acquire_producer never both succeed", bounds="unwind 6"),
+    ],
+    "claimed": False,
+}
+
+
+# ---- harnesses that need iceoryx2-cal (feature `cal`) -------------------------------------------
+CAL = ("cal",)
+PROPS["C15"]["harnesses"] += [
+    H("cal::c15cal::c15_pointer_offset_roundtrip", features=CAL, covers=0, timeout=600, mem_gb=3,
+      what="PointerOffset packs 56-bit offset + 8-bit segment id without loss; set_segment_id keeps the offset",
+      bounds="all offsets < 2^56, all ids"),
+    H("cal::c15cal::c15_shm_pool_history", features=CAL, covers=3, timeout=1800, mem_gb=8,
+      what="cal shm PoolAllocator through segment-relative offsets: 4 symbolic allocate/deallocate steps; in-bounds, "
+           "aligned, disjoint, exact failures, reuse", bounds="unwind 8; segment<=48B, bucket size 1..=12 align<=8"),
+    H("cal::c15cal::c15_shm_pool_resize_hint", features=CAL, covers=1, timeout=1500, mem_gb=6,
+      what="resize_hint for Static/BestFit/PowerOfTwo: hinted layout admits the request, never shrinks, Static "
+           "changes nothing", bounds="bucket size<=16 align<=8, request size<=40 align<=32, 0-2 used buckets"),
+    H("cal::c15cal::c15_shm_bump_history", features=CAL, covers=2, timeout=1800, mem_gb=8,
+      what="cal shm BumpAllocator: 2 symbolic allocations + grow (in place / relocating, Front/Back) keep content",
+      bounds="unwind 16; segment<=40B, request size<=12 align<=16, grow by 1..=6"),
+]
+PROPS["C14"]["harnesses"] += [
+    H("cal::c15cal::c14_shm_pool_relational", features=CAL, covers=1, timeout=1800, mem_gb=8,
+      what="shm pool allocator: the same 3-step history over two differently placed segments yields identical offsets",
+      bounds="unwind 8; placements shifted by 0/16/32 bytes"),
+]
+PROPS["C19"]["harnesses"] += [
+    H("cal::c19iso::c19_domain_isolation", features=CAL, covers=2, timeout=2400, mem_gb=10,
+      what="NamedConceptConfiguration::path_for / extract_name_from_file / extract_name_from_path: own names "
+           "round-trip; domains with unrelated prefixes, different suffix or different root never see the file",
+      bounds="unwind 12; prefixes and names of 1-2 bytes from [a-z0-9_]"),
+    H("cal::c19iso::c19_domain_isolation_prefix_of_prefix", features=CAL, covers=0, timeout=2400, mem_gb=10,
+      known="F-C19-1",
+      what="the class excluded above: one prefix is a proper prefix of the other (open known finding F-C19-1)",
+      bounds="unwind 12; prefixes and names of 1-2 bytes"),
+]
+
+PROPS["C13"] = {
+    "bounds": "one connection name, buffer 1, max borrow 1, 1 chunk, 1 segment, 1 channel; every drop order; each single "
+              "mismatching parameter; forced removal of either role before or after the survivor leaves",
+    "outside": "concurrent attach/detach/forced-remove from 2-3 threads (schedule harness on the state byte is thorough "
+               "tier only and bounded to one race); what posix_shared_memory / process_local do with the ownership "
+               "flag (files, shm unlink) - the storage is KStorage, only the DynamicStorage contract is exercised",
+    "assumptions": ["KStorage (in-memory DynamicStorage, engine/hk/src/cal/kstorage.rs) stands in for the real storages"],
+    "harnesses": [
+        H("cal::conn::c13_second_attach_and_drop_order", features=CAL, covers=2, timeout=2400, mem_gb=26,
+          what="second attach of either role refused without disturbing; both drop orders: destroyed exactly once by "
+               "the last detach, ownership acquired exactly once, never while a role is attached",
+          bounds="unwind 6"),
+        H("cal::conn::c13_single_role_and_recreate", features=CAL, covers=0, timeout=2400, mem_gb=16,
+          what="a lone role destroys the resource on detach; the name is usable again", bounds="unwind 6"),
+        H("cal::conn::c13_mismatching_attach", features=CAL, covers=0, timeout=3000, mem_gb=26,
+          what="each single mismatching parameter is refused with its specific error, leaves the sender attached and "
+               "the resource alive; a matching attach still works", bounds="unwind 6; 6 parameters"),
+        H("cal::conn::c13_forced_removal", features=CAL, covers=2, timeout=3000, mem_gb=26,
+          what="remove_sender/remove_receiver on behalf of a dead peer before or after the survivor leaves: destroyed "
+               "exactly once, never under the survivor", bounds="unwind 6"),
+    ],
+    "claimed": False,
+}
+
+_conn_data = [
+    H("cal::conn::conn_data_history_overflow", features=CAL, covers=2, timeout=3600, mem_gb=28,
+      what="sender->receiver connection with safe overflow: 4 symbolic try_send/receive/release/reclaim steps vs a model "
+           "(submission FIFO, borrowed set, completion FIFO); order, at-most-once, eviction of the oldest, release never "
+           "fails, borrow limit, used offsets after receiver exit", bounds="unwind 8; buffer 1, borrow 1, 4 chunks"),
+    H("cal::conn::conn_data_history_no_overflow", features=CAL, covers=2, timeout=3600, mem_gb=28,
+      what="same without overflow: full buffer refused with ReceiveBufferFull and no effect",
+      bounds="unwind 8; buffer 1, borrow 1, 4 chunks"),
+    H("cal::conn::conn_data_history_overflow_deep", features=CAL, covers=2, timeout=10800, mem_gb=40, tiers=("thorough",),
+      what="buffer 2, borrow 1, 6 steps, overflow", bounds="unwind 9"),
+    H("cal::conn::conn_data_history_no_overflow_deep", features=CAL, covers=2, timeout=10800, mem_gb=40,
+      tiers=("thorough",), what="buffer 2, borrow 2, 6 steps, no overflow", bounds="unwind 9"),
+]
+PROPS["C11"] = {
+    "bounds": "channel state word for all request ids <= 2^62 and every reachable shape (closed / owned / owned+hint), "
+              "one symbolic operation; 2-channel connection with one sample per channel",
+    "outside": "client.rs / server.rs / active_request.rs / pending_response.rs (port layer on a Service): request "
+               "routing, response streams, limits on active requests",
+    "assumptions": ["claim is about the channel mechanism in iceoryx2-cal only"],
+    "harnesses": [
+        H("cal::conn::c11_channel_state_machine", features=CAL, covers=2, timeout=900, mem_gb=4,
+          what="ZeroCopyPortDetails channel-state protocol (real provided methods): open only from CLOSED, close/hint "
+               "only by the owning request, closed channel belongs to nobody, other channels untouched",
+          bounds="all request ids <= 2^62, one symbolic operation from every reachable state"),
+        H("cal::conn::c11_channel_separation", features=CAL, covers=0, timeout=3600, mem_gb=28,
+          what="2-channel connection: samples, borrow counters and completion queues never cross channels",
+          bounds="unwind 8; 2 channels, 1 sample each"),
+    ],
+    "claimed": False,
+}
+PROPS["C05"] = {
+    "bounds": "bit sets: capacity 10 (crossing the 8-bit element), 4-5 symbolic operations; hand-shake: ids <= 3, 3 "
+              "symbolic notify/try_wait/blocking_wait steps; schedule: listener preempted at every shared-memory "
+              "operation of its drains with up to 3 complete notifications in the gaps",
+    "outside": "the real trigger back-ends (semaphore, unix datagram socket, socket pair: FFI) are replaced by a counting "
+               "model trigger; timed waits; 3 concurrent notifiers; notifier.rs / listener.rs port layer",
+    "assumptions": ["KTrig model trigger contract: notify increments a counter, waits consume it, blocking on 0 is "
+                    "recorded as 'would block'"],
+    "harnesses": [
+        H("c05::c05_bitset_history", covers=1, timeout=1500, mem_gb=6,
+          what="FixedSizeBitSet<10>: set/reset_next/reset_all history vs bit-mask model: nothing lost, no phantom",
+          bounds="unwind 12; 4 steps"),
+        H("c05::c05_counting_bitset_history", covers=1, timeout=1500, mem_gb=6,
+          what="FixedSizeCountingBitSet<3>: exact counts per id", bounds="unwind 8; 5 steps"),
+        H("c05::sched::c05_s_bitset_drain_race", crate="hs", covers=2, timeout=3000, mem_gb=12,
+          what="listener draining (reset_all, reset_next, reset_all) while up to 3 notifications land at any of its "
+               "shared-memory operations: no lost, no phantom, never more deliveries than notifications",
+          bounds="unwind 12; ids {1,8,9}"),
+        H("cal::c05ev::c05_ev_history", features=CAL, covers=2, timeout=3600, mem_gb=28,
+          what="real event hand-shake (Handle::notify / Waiter::drain_events) over KStorage + counting trigger: 3 symbolic "
+               "notify/try_wait/blocking_wait steps; delivered == notified-and-undelivered; no sleep while pending",
+          bounds="unwind 16; ids <= 3"),
+        H("cal::c05ev::c05_ev_id_out_of_range", features=CAL, covers=0, timeout=3600, mem_gb=20, tiers=("thorough",),
+          what="id beyond event_id_max refused, delivers nothing", bounds="unwind 16"),
+    ],
+    "claimed": False,
+}
+PROPS["C01"] = {
+    "bounds": "one publisher->subscriber connection (zero_copy_connection), buffer 1-2, max borrow 1-2, 4 chunks, 4-6 "
+              "symbolic operations; Queue::push_with_overflow as history ring (C16 harness)",
+    "outside": "publisher.rs / subscriber.rs / sender.rs / receiver.rs: several publishers or subscribers, history "
+               "replay to late joiners, update_connections, reconnects, byte identity of payloads, blocking_send",
+    "assumptions": ["connection-level claim only: the port layer needs a Service and is not encodable"],
+    "harnesses": _conn_data + [
+        H("c16::c16_fixed_size_queue_history", covers=2, timeout=1200, mem_gb=6, tiers=("quick",),
+          what="history ring: FixedSizeQueue::push_with_overflow keeps the newest entries, evicts the oldest",
+          bounds="unwind 9; CAP 2, 4 steps"),
+    ],
+    "claimed": False,
+}
+PROPS["C02"] = {
+    "bounds": "same connection harness with the conservation oracle: each chunk is in exactly one of {sender, submission "
+              "queue, borrowed, completion queue}; after the receiver leaves acquire_used_offsets yields exactly the "
+              "chunks in flight, once; pool allocator: a bucket is handed out again only after deallocate (C15)",
+    "outside": "SegmentState reference counting, Sample/SampleMut drop, history eviction vs late joiner (port layer)",
+    "assumptions": ["connection-level claim only"],
+    "harnesses": _conn_data + [
+        H("c15::c15_pool_bb_history", covers=4, timeout=1500, mem_gb=6,
+          what="pool allocator never hands out a live bucket again; freed buckets are reusable",
+          bounds="unwind 8; 4 steps"),
+    ],
+    "claimed": False,
+}
+PROPS["C08"] = {
+    "bounds": "per connection: receiver side never holds more than buffer + max borrowed; receive beyond max borrow "
+              "refused without effect and possible again after one release; release never fails; index sets refuse the "
+              "(capacity+1)-th acquire and accept again after a release; sizing formulas via MIR->SMT for parameters < 2^16",
+    "outside": "LoanError::ExceedsMaxLoans, port/node creation limits, ActiveRequest limits (port layer); that the demand "
+               "expression of the sizing formulas is the true worst case of the port layer is an argument, not a check",
+    "assumptions": ["connection-level and formula-level claim only"],
+    "harnesses": _conn_data + [
+        H("c09::c09_uis_history_cap2", covers=3, timeout=900, mem_gb=4,
+          what="UniqueIndexSet refuses the (capacity+1)-th acquire with OutOfIndices and accepts again after one release",
+          bounds="unwind 8; 5 steps"),
+    ],
+    "claimed": False,
+}
+PROPS["C03"]["harnesses"] += _conn_data
+
 # ---- claim texts (MANIFEST.json) --------------------------------------------------------------
 _BMC = ("bounded model checking of the real iceoryx2 code: CBMC decides every assertion for all values of the symbolic "
         "inputs, operation sequences and (where stated) schedules inside the bounds listed in the evidence file; "
@@ -163,7 +506,7 @@ PROPS["C19"].update({
 })
 
 # properties whose checks are still being stabilised are not claimed in MANIFEST.json yet
-NOT_READY = ["C16", "C19"]
+NOT_READY = ["C01", "C02", "C03", "C05", "C08", "C09", "C11", "C12", "C13", "C14", "C16", "C19"]
 for _p in NOT_READY:
     if _p in PROPS:
         PROPS[_p]["claimed"] = False
